@@ -98,6 +98,7 @@ def run(ck):
     camps = []
     fork_points = set()
     hashed_states = [0]
+    diverged = [0]
     for name, v, fn, out, depth, k, bound in plan:
         if ck.out_of_time():
             break
@@ -124,7 +125,9 @@ def run(ck):
             outcomes.add((name, tuple(sorted(set(bad))), x.result and x.result.get('child_status')))
             if bad:
                 if any(b.startswith('HARNESS') for b in bad):
-                    raise RuntimeError('replay divergence %s %s' % (name, x.prefix))
+                    diverged[0] += 1      # a prefix that no longer replays: not a verdict, counted, run reported as not exhaustive
+                    ck.capped = True
+                    return
                 # signature: property-level symptom + campaign family (not the schedule), so a different failure is still new
                 ck.violation('C10:%s:%s' % ('+'.join(sorted(set(bad))), name),
                              {'campaign': name, 'output': out, 'child_fork_depth': depth, 'calls_of_other_thread': k, 'schedule_prefix': x.prefix, 'preemption_bound': bound, 'failed': bad,
@@ -143,4 +146,4 @@ def run(ck):
     ck.assumptions += ['fork points = scheduling points of the other thread (sync operations; function entries in the fn campaign)', 'sequentially consistent interleavings']
     ck.coverage(states=len(outcomes) + hashed_states[0], scheduler_states_in_hashed_passes=hashed_states[0], transitions=total, traces_validated_against_impl=total, evaluations=total, distinct_nontrivial=max(len(outcomes), len(fork_points)),
                 rule='all schedules within the preemption bound per campaign (output x child depth x calls); distinct = max(distinct (campaign, verdict, child status), distinct fork positions relative to the other thread)',
-                distinct_fork_positions=len(fork_points), campaigns=camps, samples=camps[:5] or [{'note': 'none'}])
+                distinct_fork_positions=len(fork_points), replay_divergences=diverged[0], campaigns=camps, samples=camps[:5] or [{'note': 'none'}])
